@@ -185,7 +185,13 @@ __CPROVER_ensures(/* at most one element is appended, after the existing ones */
           Job('findTemplate', 'h_findTemplate', enforce=['findTemplate'],
               replace=['xv_quiet', 'xv_findTemplateInImports', 'xv_entry', 'xv_same_template', 'xv_conflicts_vector', 'xv_warn_conflicts', 'XPath_getMatchScoreValue', 'addObjectIfNotFound_iface'],
               loop_contracts=True, reach='all', timeout=1800, min_obligations=10)],
-    mutants=[],
+    mutants=[
+        Mutant('skip_by_pattern_text', ST, r'prevMatchPat->getTemplate\(\) == matchPat->getTemplate\(\)\)\)',
+               'equals(*prevMatchPat->getPattern(), *matchPat->getPattern()) &&\n                             prevMatchPat->getTemplate()->getPriority() == matchPat->getTemplate()->getPriority()))', expect='first entry of the ordered rule list'),
+        Mutant('quiet_path_last_match_wins', ST, r'(if\(XPath::eMatchScoreNone != score\)\s*\{\s*bestMatchedRule = rule;\s*)break;', r'\1', expect='first entry of the ordered rule list'),
+        Mutant('equal_priority_replaces_silently', ST, r'if\(priorityOfRule > priorityOfBestMatched\)', 'if(priorityOfRule >= priorityOfBestMatched)', expect='first entry of the ordered rule list'),
+        Mutant('imports_not_consulted', ST, r'(\n            if \(0 == bestMatchedRule\)\s*\{\s*bestMatchedRule = findTemplateInImports\(executionContext, targetNode, targetNodeType, mode\);\s*\}\s*\}\s*return bestMatchedRule;)', r'\n        }\n\n        return bestMatchedRule;', expect=None),
+    ],
     mechanisms=['selection with and without conflict reporting (two code paths)'],
     assumptions=['the rule list is ordered so that a matching entry after the first matching one never has a higher priority (postcondition of addToList, unit c10_addtolist; that the priority recomputed at run time from the match score agrees with the one the list was ordered by is assumed)',
                  'entries of the same template that follow each other carry the same match expression, mode and priority (they are the alternatives of one union pattern)',
